@@ -161,6 +161,8 @@ fn generate(rng: &mut Rng) -> C15Sc {
             },
         }
         spec.close_on_end_ns = Some(0);
+        // header and first frames may reach the server in one read
+        spec.coalesce = rng.chance(1, 2);
         let mut c = NetClient { connect_at_ns: t, peer: peer.to_string(), spec, wplan: vec![] };
         if kind == "truncated_then_eof" {
             // the client closes right after the partial header: script mode with a single close
